@@ -80,7 +80,7 @@ class C08(TableProp):
 
     def gen(self, rng, tier):
         for i in range(self.counts(tier)):
-            shape = tg.random_shape(rng, mods=False)
+            shape = tg.random_shape(rng, mods=False, allow_alias=True)
             n = rng.choice([2, 3, 4, 5, 6, 8]) if tier == 'quick' else rng.choice([2, 3, 5, 8, 12, 20, 40])
             rows, keys = tg.random_rows(rng, shape, n)
             if shape['strategy'] == 'validity':
@@ -289,7 +289,7 @@ class C19(TableProp):
     def gen(self, rng, tier):
         for i in range(self.counts(tier)):
             shape = tg.random_shape(rng, strategy=rng.choice(['subquery', 'subquery', 'subquery', 'validity']),
-                                    mods=False)
+                                    mods=False, allow_alias=True)
             n = rng.choice([2, 3, 4, 5, 6, 8]) if tier == 'quick' else rng.choice([3, 5, 8, 12, 20])
             nvals = 2
             if rng.random() < 0.3:
@@ -307,7 +307,7 @@ class C19(TableProp):
         # an entity deleted and brought back with the data it had (INSERT a, DELETE a, INSERT a; UPDATE x, DELETE x, UPDATE x),
         # the DELETE row carrying the same values (subquery strategy: no end column differs)
         for i in range(12 if tier == 'quick' else 300):
-            shape = tg.random_shape(rng, strategy='subquery', mods=False)
+            shape = tg.random_shape(rng, strategy='subquery', mods=False, allow_alias=True)
             keys = tg.random_keys(rng, shape, rng.choice([1, 2]))
             rows = []
             for k in keys:
@@ -609,7 +609,7 @@ class C15Tables(TableProp):
         for i in range(n):
             kind = rng.choice(['changeset', 'backfill'])
             if kind == 'changeset':
-                shape = tg.random_shape(rng, mods=rng.random() < 0.4)
+                shape = tg.random_shape(rng, mods=rng.random() < 0.4, allow_alias=True)
             else:
                 shape = tg.random_shape(rng, strategy='validity', mods=True)
             nrows = rng.choice([2, 3, 4, 5, 6, 8]) if tier == 'quick' else rng.choice([2, 3, 5, 8, 12, 20])
@@ -622,7 +622,7 @@ class C15Tables(TableProp):
         te = tg.TableEnv(case['shape'])
         try:
             te.fill(case['rows'], [])
-            vc, kc = tg.val_cols(case['shape']), tg.key_cols(case['shape'])
+            vc, kc = tg.val_cols(case['shape']), tg.key_attrs(case['shape'])
             if case['kind'] == 'changeset':
                 s = te.env.s
                 res = []
